@@ -372,7 +372,7 @@ func (x *Exec) doMakeInterface(fr *Frame, in *ssa.MakeInterface, reach *Term, st
 			srt := v.L[0].Sort
 			x.vc.declFunGlobal(tb, []string{srt}, SInt)
 			x.vc.declFunGlobal("un"+tb, []string{SInt}, srt)
-			x.vc.assertGlobal(fmt.Sprintf("(forall ((v %s)) (! (and (= (%s (%s v)) v) (< (%s v) (- 1000)) (= (dyntype (%s v)) %s)) :pattern ((%s v))))", srt, "un"+tb, tb, tb, tb, tid.S, tb))
+			x.vc.assertGlobal(fmt.Sprintf("(forall ((v %s)) (! (and (= (%s (%s v)) v) (< (%s v) (- 1000)) (not (isTN (%s v))) (= (dyntype (%s v)) %s)) :pattern ((%s v))))", srt, "un"+tb, tb, tb, tb, tb, tid.S, tb))
 		}
 		return scalar(in.Type(), x.vc.name("boxed", app(SInt, tb, v.L[0])))
 	}
@@ -417,7 +417,13 @@ func (x *Exec) typedNil(t types.Type) *Term {
 		x.tid(t)
 		id = x.tids[typeName(t)]
 	}
-	return mkInt64(int64(-3000000 - id))
+	c := mkInt64(int64(-3000000 - id))
+	key := fmt.Sprintf("isTN.%d", id)
+	if !x.vc.declared[key] {
+		x.vc.declared[key] = true
+		x.vc.assertGlobal("(isTN " + c.S + ")")
+	}
+	return c
 }
 
 func (x *Exec) unboxAs(v *Term, t types.Type, st *State) *Sym {
@@ -440,7 +446,7 @@ func (x *Exec) unboxAs(v *Term, t types.Type, st *State) *Sym {
 			x.vc.declFunGlobal("dyntype", []string{SInt}, SInt)
 			x.vc.declFunGlobal(tb, []string{srt}, SInt)
 			x.vc.declFunGlobal("un"+tb, []string{SInt}, srt)
-			x.vc.assertGlobal(fmt.Sprintf("(forall ((v %s)) (! (and (= (%s (%s v)) v) (< (%s v) (- 1000)) (= (dyntype (%s v)) %s)) :pattern ((%s v))))", srt, "un"+tb, tb, tb, tb, tid.S, tb))
+			x.vc.assertGlobal(fmt.Sprintf("(forall ((v %s)) (! (and (= (%s (%s v)) v) (< (%s v) (- 1000)) (not (isTN (%s v))) (= (dyntype (%s v)) %s)) :pattern ((%s v))))", srt, "un"+tb, tb, tb, tb, tb, tid.S, tb))
 		}
 		return scalar(t, app(ls[0].Sort, "un"+tb, v))
 	}
